@@ -41,6 +41,7 @@ def run_one(item, tier):
             env = dict(os.environ, VERIF_REPO=wt)
             r = subprocess.run([os.path.join(V, "check"), p, "--tier", tier], cwd=V, env=env, capture_output=True, text=True, timeout=3600)
             viol = [l for l in r.stdout.splitlines() if l.startswith("VIOLATION")]
+            res["expected"] = meta.get("expected", "violation")
             res["checks"][p] = {"rc": r.returncode, "violations": viol[:5], "caught": r.returncode == 1 and bool(viol),
                                 "with_input": any("no-failing-input-found" not in l for l in viol), "wall_s": round(time.time() - t0, 1)}
     except Exception as e:
@@ -75,8 +76,13 @@ def main():
         if "error" in r:
             print("%-5s %-40s ERROR %s" % (r["id"], r["name"], r["error"])); ok = False; continue
         for p, c in r["checks"].items():
+            if r.get("expected") == "pass":
+                print("%-5s %-40s check=%s %s (%ss)" % (r["id"], r["name"], p, "PASS as expected (harmless change)" if c["rc"] == 0 else "UNEXPECTED ALARM rc=%s" % c["rc"], c["wall_s"]))
+                continue
             print("%-5s %-40s check=%s %s%s (%ss)" % (r["id"], r["name"], p, "CAUGHT" if c["caught"] else "MISSED rc=%s" % c["rc"],
                   " (with failing input)" if c.get("with_input") else "", c["wall_s"]))
-        if not any(c["caught"] for c in r["checks"].values()): ok = False
+        if r.get("expected") == "pass":
+            if any(c["rc"] != 0 for c in r["checks"].values()): ok = False
+        elif not any(c["caught"] for c in r["checks"].values()): ok = False
     sys.exit(0 if ok else 1)
 main()
